@@ -30,7 +30,7 @@ BUDGET = {
 @st.composite
 def _edges(draw):
     n = draw(st.integers(2, 10))
-    lo = draw(st.sampled_from([0.0, -1.0, 0.5, 2.0, 0.05]))
+    lo = draw(st.sampled_from([0.0, -1.0, 0.5, 2.0, 0.05, -12.0, -30.0]))      # (-12, -30: grids that end below zero)
     if draw(st.booleans()):
         w = draw(st.sampled_from([1.0, 0.5, 2.0, 1.25, 0.1, 0.3]))       # decimal widths: edges that single precision cannot hold
         return [lo + w * i for i in range(n + 1)]
@@ -95,7 +95,7 @@ def _case(draw):
         f = draw(st.floats(0, 1))
     c['f'] = f
     c['f2'] = min(1.0, f + draw(st.floats(0, 0.5)))
-    c['sigma'] = draw(st.one_of(st.sampled_from([0.0, 0.5, 1.0, 3.0, 10.0]),
+    c['sigma'] = draw(st.one_of(st.sampled_from([0.0, 0.5, 1.0, 3.0, 10.0, 0.75, 1.75, 2.75, 0.25]),
                                 st.tuples(st.sampled_from([0.5, 1.0, 3.0]), st.sampled_from([0.0, 1.0, 5.0])).map(list)))
     c['perm_seed'] = draw(st.integers(0, 2 ** 16))
     c['refuse'] = draw(st.sampled_from([None] * 9 + ['f_neg', 'f_big', 'one_channel', 'three_channels', 'one_event']))
@@ -119,7 +119,7 @@ def run_job(job):
     failures, claims = [], {}
     for L, nb in job:
         case = dict(arm='array', dtype=None, n=3 * (L + 1), kind='levels', levels=L, data_seed=0, on_edges=[], bins_form='count',
-                    bx=nb, by=nb, integer=(L + nb) % 2 == 0, f=0.5, f2=0.8, sigma=[1.0, 1.0][0] if nb % 3 else 0.0, perm_seed=L * 100 + nb,
+                    bx=nb, by=nb, integer=(L + nb) % 2 == 0, f=0.5, f2=0.8, sigma=[1.0, 0.0, 0.75, 1.75][(L + nb) % 4], perm_seed=L * 100 + nb,
                     refuse=None)
         obs = Obs()
         try:
